@@ -24,11 +24,12 @@ _built: Dict[str, Any] = {}
 
 
 def class_source(shape: dict) -> str:
-    lines = ["from dataclasses import dataclass, field, InitVar", "from apischema.fields import with_fields_set",
-             "from apischema.metadata import default_as_set", ""]
+    lines = ["from dataclasses import dataclass, field, InitVar", "from typing import Generic, TypeVar",
+             "from apischema.fields import with_fields_set", "from apischema.metadata import default_as_set", "T = TypeVar('T')", ""]
+    generic = shape.get("generic")
 
     def fld(f):
-        tp = "InitVar[int]" if f["kind"] == "initvar" else "int"
+        tp = "InitVar[int]" if f["kind"] == "initvar" else "T" if generic and f["name"] == "g" else "int"
         args = []
         if not f["req"]:
             args.append("default=0")
@@ -46,7 +47,7 @@ def class_source(shape: dict) -> str:
     top = "Base" if shape["hasSub"] else "K"
     if shape["deco"]["base"]:
         lines.append("@with_fields_set")
-    lines += ["@dataclass", f"class {top}:"] + [fld(f) for f in base_fields]
+    lines += ["@dataclass", f"class {top}{'(Generic[T])' if generic else ''}:"] + [fld(f) for f in base_fields]
     if any(f["kind"] == "initvar" for f in base_fields):
         lines.append("    def __post_init__(self, " + ", ".join(f["name"] for f in base_fields if f["kind"] == "initvar") + "):")
         lines.append("        pass")
@@ -84,6 +85,8 @@ def run_ops(shape: dict, ops: List[dict]) -> dict:
             names = list(op["names"])
             if op["op"] == "construct":
                 obj = K(**{n: 1 for n in names})
+            elif op["op"] == "construct_pos":
+                obj = K(*([1] * len(names)))
             elif op["op"] == "deserialize":
                 obj = deserialize(K, {n: 1 for n in names})
             elif op["op"] == "setattr":
@@ -96,6 +99,9 @@ def run_ops(shape: dict, ops: List[dict]) -> dict:
                 unset_fields(obj, *names)
             elif op["op"] == "replace":
                 obj = replace(obj, **{n: 3 for n in names})
+        if shape.get("generic"):      # the parametrised form must behave as the class
+            if sorted(serialize(K[int], obj)) != sorted(serialize(K, obj)):
+                return {"exc": f"serialize(K[int], obj) keys {sorted(serialize(K[int], obj))} differ from serialize(K, obj) {sorted(serialize(K, obj))}"}
         return {"fs": sorted(fields_set(obj)), "keys_unset": sorted(serialize(K, obj)),
                 "keys_unset_untyped": sorted(serialize(obj)),
                 "keys_all": sorted(serialize(K, obj, exclude_unset=False))}
